@@ -1,7 +1,7 @@
 // Replay driver through the real FileExecutor (batch mode), output captured by a Printer:
 //   file_replay <create-table-text> <query-text> <expect> <file1-content> [<file2-content> ...]
 //   expect:  lines=<a|b|c>  printed records joined with '|' ;  total=<n> statistics.total_lines ; both joined by '&'
-//   a joined table can be given as env JOIN_FILE_CONTENT (written to the path named in the query as $JOIN)
+//   a joined table can be given as env JOIN_FILE_CONTENT (written to the path named in the query as @JOIN@)
 use std::fs::File;
 use std::io::Write;
 use std::sync::Arc;
@@ -43,7 +43,7 @@ fn main() {
     if let Ok(join) = std::env::var("JOIN_FILE_CONTENT") {
         let p = dir.join("join.log");
         File::create(&p).unwrap().write_all(join.replace("\\n", "\n").as_bytes()).unwrap();
-        query = query.replace("$JOIN", p.to_str().unwrap());
+        query = query.replace("@JOIN@", p.to_str().unwrap());
     }
     let mut tables = Tables::new();
     assert!(tables.add_tables(parsing::parse(table).expect("table")));
